@@ -122,6 +122,12 @@ func VerifyFunc(w *World, rel string, c *Contract, fn *ssa.Function) *FuncReport
 			for i, p := range fn.Params {
 				env.vars[p.Name()] = args[i]
 			}
+			// a closure verified on its own: its free variables by name
+			for i, fv := range fn.FreeVars {
+				if i < len(bind) && bind[i].Loc != nil {
+					env.vars[fv.Name()] = x.loadLoc(st2, bind[i].Loc, nil, "")
+				}
+			}
 			x.bindResults(env, c, fn, res)
 			for _, en := range c.Ensures {
 				if t, ok := x.evalClause(st2, env, en); ok {
